@@ -1072,6 +1072,36 @@ theorem C15_not_entitled_author_refused_next_to_any_checks (c : Cfg) (user : Opt
   have : (checkBody c user h).verdict = .reject := by simp [Result.verdict, hr, hq]
   rw [this, C15_refusal_survives_any_neighbour]
 
+/-- Wherever the group is declared and in whatever order recipients are named: when the group's verdict on the
+envelope sender is a rejection, NO recipient whose delivery lies behind the group is accepted. -/
+theorem C15_placed_sender_refusal_reaches_every_checked_recipient (p : Place) (order : List Bool) (i : Nat)
+    (hi : i < order.length) (hb : p.behind (order[i]'hi) = true) :
+    (placedRcpts p true order)[i]'(by simpa [placedRcpts] using hi) = false := by
+  simp [placedRcpts, rcptAccepted, hb]
+
+/-- … and recipients are refused for no other reason: without a rejection all are accepted; a recipient that is not
+behind the group is accepted whatever the verdict. -/
+theorem C15_placed_no_refusal_without_rejection (p : Place) (order : List Bool) :
+    placedRcpts p false order = order.map (fun _ => true) := by
+  simp [placedRcpts, rcptAccepted]
+
+theorem C15_placed_unchecked_recipient_accepted (r : Bool) (order : List Bool) (i : Nat)
+    (hi : i < order.length) (hb : order[i]'hi = false) :
+    (placedRcpts .dest r order)[i]'(by simpa [placedRcpts] using hi) = true := by
+  simp [placedRcpts, rcptAccepted, Place.behind, hb]
+
+/-- With the actions that reject: a client that is not entitled to the envelope sender gets no recipient behind the
+check group accepted, wherever the group is declared (also in a destination block, where the sender verdict is a
+replay), whatever the order of the recipients, whatever the other checks of the group answer. -/
+theorem C15_not_entitled_sender_refused_wherever_declared (c : Cfg) (user : Option Str) (mailFrom : Str)
+    (before after : List Verdict) (p : Place) (order : List Bool) (i : Nat)
+    (hr : (checkSender c user mailFrom).reject = true) (hq : (checkSender c user mailFrom).quarantine = false)
+    (hi : i < order.length) (hb : p.behind (order[i]'hi) = true) :
+    (placedRcpts p (mergeResults (before ++ (checkSender c user mailFrom).verdict :: after)).1 order)[i]'(by
+      simpa [placedRcpts] using hi) = false := by
+  have h := C15_not_entitled_sender_refused_next_to_any_checks c user mailFrom before after hr hq
+  simp [placedRcpts, rcptAccepted, hb, h]
+
 section Examples
 
 def s (x : String) : Str := x.toList.map Char.toNat
